@@ -284,6 +284,11 @@ impl MockNode {
     pub fn sharding(&self) -> Option<ShardSpec> {
         self.spec.read().unwrap().sharding
     }
+    /// what the node announces in SUPPORTED from now on (a restart with another configuration): takes effect
+    /// for connections opened afterwards
+    pub fn set_sharding(&self, sh: Option<ShardSpec>) {
+        self.spec.write().unwrap().sharding = sh;
+    }
 }
 
 /// What a check plugs in. All methods have benign defaults.
